@@ -254,6 +254,7 @@ func c14(tier string) []*explore.Scenario {
 	out = append(out, c14History(n))
 	out = append(out, apiSeqs("C14", tier)...)
 	out = append(out, handlerSeqs("C14", tier)...)
+	out = append(out, opInWriteAll("C14", 1)...)
 	return out
 }
 
